@@ -636,6 +636,11 @@ fn validate_entry<S: ranger::Store<SignedEntry> + PublicKeyStore>(
         return Err(ValidationFailure::BadSignature);
     }
 
+    // Verify that non-local entries are either proper records or proper deletion markers.
+    if !matches!(origin, InsertOrigin::Local) {
+        entry.validate_empty()?;
+    }
+
     // Verify that the timestamp of the entry is not too far in the future.
     if entry.timestamp() > now + MAX_TIMESTAMP_FUTURE_SHIFT {
         return Err(ValidationFailure::TooFarInTheFuture);
